@@ -20,7 +20,7 @@ import sys, os, re, json, random, subprocess, shutil, time, multiprocessing
 
 ROOT = os.path.dirname(os.path.dirname(os.path.abspath(__file__)))
 REPO = "/repo"
-SCR = "/tmp/mut"
+SCR = os.environ.get("MUT_SCR", "/tmp/mut")
 
 TABLE_PROPS = ["C04", "C01", "C02", "C03", "C11", "C18", "C14"]
 PROPS_FOR = {
